@@ -101,6 +101,10 @@ class ExcelArrayOps(object):
             value = value[0]
         if not isinstance(value, list):
             value = [value for i in range(len(self.arr))]
+        elif len(self.arr) == 1:
+            # a one-element array on the left combines with every element as well,
+            # so that {5}+{1,2} equals {1,2}+{5}
+            self.arr = [self.arr[0] for i in range(len(value))]
         return value
 
     def __add__(self, value):
